@@ -27,8 +27,8 @@ class K:
 def outer(p={P3}):
     """outer doc"""
     @deco({P4})
-    def inner(q={P5}):
-        emit(('inner', q, [{P6} for _ in [1]], (lambda: {P7})(), f"{{{P8}}}", f"{P16}{{q}}"))
+    def inner(q={P5}, *, kw={P18}):
+        emit(('inner', q, [{P6} for _ in [1]], (lambda: {P7})(), f"{{{P8}}}", f"{P16}{{q}}", (lambda d={P19}: d)(), [_ for _ in [{P20}]], kw))
         return q
     x = {P9}
     class L:
@@ -49,7 +49,7 @@ class S:
     __slots__ = ({P14}, 'other_slot')
 emit(('slots', S.__slots__))
 '''
-NPLACES = 18
+NPLACES = 21
 LITS = {
     'str': ("'hello world'", 'hello world', lambda i: "'fill%d'" % i),
     'bytes': ("b'hello world'", b'hello world', lambda i: "b'fill%d'" % i),
@@ -137,6 +137,9 @@ def places(tree):
     out[7] = tup.elts[3].func.body
     out[8] = tup.elts[4].values[0].value
     out[16] = tup.elts[5].values[0]
+    out[18] = inner.args.kw_defaults[0]
+    out[19] = tup.elts[6].func.args.defaults[0]
+    out[20] = tup.elts[7].generators[0].iter.elts[0]
     out[9] = assigns(outer.body)[0].value
     out[10] = assigns(L.body, True)[0].value
     # P15: the expression statement between class L and the emit call
